@@ -139,14 +139,37 @@ class UFSACPolicy(AbstractSACPolicy):
         return None
 
     def __call__(self, state, observation, *, key=None, action_mask=None):
-        raise NotImplementedError
+        # the rest of the public policy API: other uninterpreted functions of the same operands (a key-less call is the mode, a keyed call a sample)
+        if key is None:
+            return None, uf("PI_mode", [((self.adim,), "float32")], _sg(self.theta), _sg(observation))[0]
+        return None, uf("PI_sample", [((self.adim,), "float32")], _sg(self.theta), _sg(observation), key)[0]
 
     def action_distribution(self, state, observation):
-        raise NotImplementedError
+        return None, _UFActionDist(self, observation)
 
     def action_and_log_prob(self, state, observation, *, key):
         a, lp = uf("PI", [((self.adim,), "float32"), ((), "float32")], _sg(self.theta), _sg(observation), key)
         return None, a, lp
+
+
+class _UFActionDist:
+    """the action distribution of a UFSACPolicy: every method an uninterpreted function of (theta, observation, argument)"""
+
+    def __init__(self, pol, observation):
+        self.pol, self.obs = pol, observation
+
+    def mode(self):
+        return uf("PI_mode", [((self.pol.adim,), "float32")], _sg(self.pol.theta), _sg(self.obs))[0]
+
+    def sample(self, key):
+        return uf("PI_sample", [((self.pol.adim,), "float32")], _sg(self.pol.theta), _sg(self.obs), key)[0]
+
+    def log_prob(self, value):
+        return uf("PI_logprob", [((self.pol.adim,), "float32")], _sg(self.pol.theta), _sg(self.obs), _sg(jnp.asarray(value)))[0]
+
+    def sample_and_log_prob(self, key):
+        a, lp = uf("PI", [((self.pol.adim,), "float32"), ((), "float32")], _sg(self.pol.theta), _sg(self.obs), key)
+        return a, lp
 
 
 class UFCritic(eqx.Module):
